@@ -492,6 +492,57 @@ Theorem C16_mixed_history_hyps_met :
   IdleQ ex_b1 /\ wanted_all (ob_cap (s_ob (w_sess ex_b1))) [ex_req_sub; ex_req_q2] ex_b1.
 Proof. exact mixed_history_hyps_met. Qed.
 
+From Minimq Require Import Reconnect ConnectIdle.
+
+(* ---- where those histories start: connect() of a client without keep-alive and with nothing in flight — a client that has
+   never connected as well as one resuming its session — on a behaving transport answered by a conformant broker succeeds and
+   ends in `IdleQ` (once the application holds the handle), for every configuration in which the CONNECT fits.  Hence: connect,
+   then any list of acknowledged requests that are valid, not QoS 0 and fit the transmit buffer, each followed by its poll():
+   the connect succeeds, every request completes, and the session ends idle. ---- *)
+Theorem C16_connect_establishes_idle : forall w off bs,
+  w_script w = [] -> w_broker w = 2 -> w_inq w = [] -> w_txbuf w = [] -> w_last_arrival w <= w_now w ->
+  6 <= rcap (s_reader (w_sess w)) ->
+  let s2 := connect_scratch (w_sess w) in
+  enc_connect (ob_cap (s_ob s2) - ob_used (s_ob s2)) (connect_request s2) = SOk off bs -> lenN bs <= BIG ->
+  WInv (w_sess w) ->
+  ob_ctl (s_ob (w_sess w)) = [] -> ob_rel (s_ob (w_sess w)) = [] -> ob_ret (s_ob (w_sess w)) = [] ->
+  (cf_keepalive_s (s_cfg (w_sess w)) mod 65536) * 1000 = 0 ->
+  5 <= ob_cap (s_ob (w_sess w)) -> ob_cap (s_ob (w_sess w)) <= BIG ->
+  exists w1 ev,
+    op_connect FUEL w = (w1, ODone ev) /\ ev = (if s_sp (w_sess w) then 1 else 0) /\
+    w_wire w1 = w_wire w ++ bs /\ w_now w1 = w_now w /\
+    ob_cap (s_ob (w_sess w1)) = ob_cap (s_ob (w_sess w)) /\ s_cfg (w_sess w1) = s_cfg (w_sess w) /\
+    rt_maxqos (s_rt (w_sess w1)) = None /\
+    IdleQ (upd_broker (upd_live w1 true true ev) 1).
+Proof. exact connect_establishes_idle. Qed.
+
+Theorem C16_connect_then_history_completes : forall w off bs qs,
+  w_script w = [] -> w_broker w = 2 -> w_inq w = [] -> w_txbuf w = [] -> w_last_arrival w <= w_now w ->
+  6 <= rcap (s_reader (w_sess w)) ->
+  let s2 := connect_scratch (w_sess w) in
+  enc_connect (ob_cap (s_ob s2) - ob_used (s_ob s2)) (connect_request s2) = SOk off bs -> lenN bs <= BIG ->
+  WInv (w_sess w) ->
+  ob_ctl (s_ob (w_sess w)) = [] -> ob_rel (s_ob (w_sess w)) = [] -> ob_ret (s_ob (w_sess w)) = [] ->
+  (cf_keepalive_s (s_cfg (w_sess w)) mod 65536) * 1000 = 0 ->
+  5 <= ob_cap (s_ob (w_sess w)) -> ob_cap (s_ob (w_sess w)) <= BIG ->
+  Forall (request_plain (ob_cap (s_ob (w_sess w)))) qs ->
+  exists w1 ev w',
+    op_connect FUEL w = (w1, ODone ev) /\ w_wire w1 = w_wire w ++ bs /\
+    history (upd_broker (upd_live w1 true true ev) 1) qs w' /\ IdleQ w' /\ w_now w' = w_now w.
+Proof. exact connect_then_history_completes. Qed.
+
+Theorem C16_connect_then_history_hyps_met :
+  w_script ex_pre = [] /\ w_broker ex_pre = 2 /\ w_inq ex_pre = [] /\ w_txbuf ex_pre = [] /\ w_last_arrival ex_pre <= w_now ex_pre /\
+  6 <= rcap (s_reader (w_sess ex_pre)) /\
+  (exists off, enc_connect (ob_cap (s_ob (connect_scratch (w_sess ex_pre))) - ob_used (s_ob (connect_scratch (w_sess ex_pre))))
+                           (connect_request (connect_scratch (w_sess ex_pre))) = SOk off ex_connect_bytes) /\
+  lenN ex_connect_bytes <= BIG /\ WInv (w_sess ex_pre) /\
+  ob_ctl (s_ob (w_sess ex_pre)) = [] /\ ob_rel (s_ob (w_sess ex_pre)) = [] /\ ob_ret (s_ob (w_sess ex_pre)) = [] /\
+  (cf_keepalive_s (s_cfg (w_sess ex_pre)) mod 65536) * 1000 = 0 /\
+  5 <= ob_cap (s_ob (w_sess ex_pre)) /\ ob_cap (s_ob (w_sess ex_pre)) <= BIG /\
+  Forall (request_plain (ob_cap (s_ob (w_sess ex_pre)))) [ex_req_sub; ex_req_q2; ReqPublish ex_pub; ReqUnsubscribe [ex_filter] []].
+Proof. exact connect_then_history_hyps_met. Qed.
+
 Print Assumptions C16_progress_decreases_work.
 Print Assumptions C16_reachable_invariant.
 Print Assumptions C16_drive_loop_terminates.
@@ -535,3 +586,6 @@ Print Assumptions C16_mixed_history_hyps_met.
 Print Assumptions C16_exchange_keeps_config.
 Print Assumptions C16_history_completes_static.
 Print Assumptions C16_static_history_hyps_met.
+Print Assumptions C16_connect_establishes_idle.
+Print Assumptions C16_connect_then_history_completes.
+Print Assumptions C16_connect_then_history_hyps_met.
